@@ -3,9 +3,11 @@ package props
 import (
 	"encoding/json"
 	"fmt"
+	"path/filepath"
 	"strings"
 
 	"github.com/ozanh/ugo"
+	"github.com/ozanh/ugo/importers"
 
 	"verif/internal/canon"
 	"verif/internal/core"
@@ -535,6 +537,74 @@ func (m c12) Run(c *core.Ctx) {
 			}
 		}
 		c.Nontrivial(fmt.Sprintf("filegraph-%d", gi))
+	}
+	// file modules in SEVERAL directories: the same relative import text ("./util.ugo") written in files of different
+	// directories names different files, and one file reached by different spellings is one module. Expected outcome by
+	// construction (every file reports its own tag; counters show which imports share an object).
+	{
+		files := map[string]string{
+			"a/mod.ugo":    "global L\nL(\"body-a-mod\")\nu := import(\"./util.ugo\")\nreturn {tag: func() { return u.tag }, inc: func() { return u.inc() }}\n",
+			"b/mod.ugo":    "global L\nL(\"body-b-mod\")\nu := import(\"./util.ugo\")\nreturn {tag: func() { return u.tag }, inc: func() { return u.inc() }}\n",
+			"a/util.ugo":   "global L\nL(\"body-a-util\")\nn := 0\nreturn {tag: \"a-util\", inc: func() { n++; return n }}\n",
+			"b/util.ugo":   "global L\nL(\"body-b-util\")\nn := 100\nreturn {tag: \"b-util\", inc: func() { n++; return n }}\n",
+			"b/c/deep.ugo": "global L\nL(\"body-deep\")\nu := import(\"../util.ugo\")\nv := import(\"./util.ugo\")\nreturn [u.tag, u.inc(), v.tag]\n",
+			"b/c/util.ugo": "global L\nL(\"body-c-util\")\nreturn {tag: \"c-util\"}\n",
+		}
+		mains := []struct{ src, want, wantLog string }{
+			{"global L\na := import(\"./a/mod.ugo\")\nb := import(\"./b/mod.ugo\")\nbu := import(\"./b/util.ugo\")\nreturn [a.tag(), b.tag(), bu.tag, a.inc(), b.inc(), bu.inc(), import(\"./a/util.ugo\").inc()]",
+				"[s:\"a-util\",s:\"b-util\",s:\"b-util\",i:1,i:101,i:102,i:2]", "body-a-mod,body-a-util,body-b-mod,body-b-util"},
+			{"global L\nbu := import(\"./b/util.ugo\")\nb := import(\"./b/mod.ugo\")\na := import(\"./a/mod.ugo\")\nd := import(\"./b/c/deep.ugo\")\nreturn [a.tag(), b.tag(), bu.tag, d, b.inc()]",
+				"[s:\"a-util\",s:\"b-util\",s:\"b-util\",[s:\"b-util\",i:101,s:\"c-util\"],i:102]", "body-b-util,body-b-mod,body-a-mod,body-a-util,body-deep,body-c-util"},
+		}
+		for mi, mn := range mains {
+			idx++
+			if idx%c.NBatch != c.Batch {
+				continue
+			}
+			mn := mn
+			if !c.Begin(func() string { return "file importer, several directories\n" + mn.src }) {
+				continue
+			}
+			p := &Program{Src: mn.src, Tags: []string{"file-importer-dirs"}}
+			for _, wd := range []string{"", ".", "mods", "/abs/dir"} {
+				for _, noopt := range []bool{true, false} {
+					wd := wd
+					imp := &importers.FileImporter{WorkDir: wd, FileReader: func(path string) ([]byte, error) {
+						// the importer hands over a cleaned path below its working directory (absolute when WorkDir is
+						// empty or relative): the file is the one whose name is the longest matching tail of that path
+						q := filepath.ToSlash(filepath.Clean(path))
+						best := ""
+						for name := range files {
+							if (q == name || strings.HasSuffix(q, "/"+name)) && len(name) > len(best) {
+								best = name
+							}
+						}
+						if best != "" {
+							return []byte(files[best]), nil
+						}
+						return nil, fmt.Errorf("no such file %s", path)
+					}}
+					cr := safeCompile([]byte(mn.src), ugo.CompilerOptions{ModuleMap: ugo.NewModuleMap().SetExtImporter(imp), NoOptimize: noopt})
+					if cr.err != nil || cr.panicv != "" {
+						c.Violation("C12|file-importer-dirs|compile-fails", "a file module graph over several directories does not compile with WorkDir "+fmt.Sprintf("%q", wd)+": "+fmt.Sprint(cr.err)+cr.panicv, c12wit{Program: p, Config: "workdir=" + wd})
+						continue
+					}
+					vm := runVM(cr.bc, nil, nil, false)
+					c.Count("file_importer_dir_runs")
+					var bodies []string
+					for _, e := range strings.Split(vm.Log, ";") {
+						if i := strings.Index(e, "body-"); i >= 0 {
+							bodies = append(bodies, strings.Trim(e[i:], "\" "))
+						}
+					}
+					if vm.Kind != "value" || vm.Value != mn.want || strings.Join(bodies, ",") != mn.wantLog {
+						c.Violation("C12|file-importer-dirs|"+vm.Kind, fmt.Sprintf("file modules in several directories (WorkDir %q): got %s %s bodies %v, want %s bodies %s", wd, vm.Kind, trunc(vm.Value+vm.ErrMsg, 200), bodies, mn.want, mn.wantLog), c12wit{Program: p, Config: "workdir=" + wd, Got: vm})
+						break
+					}
+				}
+			}
+			c.Nontrivial(fmt.Sprintf("filegraph-dirs-%d", mi))
+		}
 	}
 	// generated graphs
 	n := c.Pick(150, 15000)
